@@ -4,9 +4,12 @@ import atexit, hashlib, json, os, re, shutil, subprocess, sys, tempfile, time  #
 
 VERIF = '/verif'
 SPEC = VERIF + '/spec'
-BUILD = VERIF + '/.build'
+# The registered checks always use /repo and /verif/evidence. The three overrides exist only so that seeded
+# changes can be evaluated in scratch worktrees (bin/evalmutant.sh) without touching /repo or the evidence.
+REPO = os.environ.get('ZOG_REPO', '/repo')
+BUILD = os.environ.get('VERIF_BUILD', VERIF + '/.build')
 HARNESS_BIN = BUILD + '/zogverif'
-EVID = VERIF + '/evidence'
+EVID = os.environ.get('VERIF_EVID', VERIF + '/evidence')
 REPLAY = EVID + '/replay'
 GOENV = dict(os.environ, GOFLAGS='-mod=mod', GOPROXY='off', GOSUMDB='off', GOTOOLCHAIN='local')
 
@@ -43,11 +46,22 @@ def seed():
 def build_harness():
     """Rebuild the Go harness against /repo's current working tree with hooks on (-tags verif)."""
     os.makedirs(BUILD, exist_ok=True)
-    shutil.copy('/repo/go.sum', VERIF + '/harness/go.sum')
-    r = subprocess.run(['go', 'build', '-tags', 'verif', '-o', HARNESS_BIN, '.'], cwd=VERIF + '/harness', env=GOENV,
+    r = subprocess.run(['go', 'build'] + modfile_args() + ['-tags', 'verif', '-o', HARNESS_BIN, '.'], cwd=VERIF + '/harness', env=GOENV,
                        capture_output=True, text=True)
     if r.returncode != 0:
         raise Inconclusive('harness build failed:\n' + r.stdout + r.stderr)
+
+
+def modfile_args():
+    """go.mod of the harness replaces the zog module with /repo; for a scratch worktree an alternative modfile is generated."""
+    if REPO == '/repo':
+        shutil.copy('/repo/go.sum', VERIF + '/harness/go.sum')
+        return []
+    alt = BUILD + '/go.alt.mod'
+    with open(alt, 'w') as f:
+        f.write(open(VERIF + '/harness/go.mod').read().replace('=> /repo', '=> ' + REPO))
+    shutil.copy(REPO + '/go.sum', BUILD + '/go.alt.sum')
+    return ['-modfile=' + alt]
 
 
 def harness(args, timeout=3600, env=None):
@@ -144,11 +158,11 @@ def validate_traces(module, trace_file, consts, timeout=3600):
     return vs[:-1], res
 
 
-def spec_hash():
+def spec_hash(modules=('ZogData', 'ZogRef', 'ZogExec', 'MC_Exec', 'ZogBuild')):
+    """hash of the modules the cached TLC-generated trap cases depend on"""
     h = hashlib.sha256()
-    for f in sorted(os.listdir(SPEC)):
-        if f.endswith('.tla'):
-            h.update(open(os.path.join(SPEC, f), 'rb').read())
+    for m in modules:
+        h.update(open(os.path.join(SPEC, m + '.tla'), 'rb').read())
     return h.hexdigest()[:16]
 
 
